@@ -38,6 +38,10 @@ POLICIES = {
                                  fed.SP_EID: {"attribute_restrictions": {"sn": None, "mail": [r"^a"]}}},
     "per-sp-other-sp": {"default": {"attribute_restrictions": {"givenName": None}},
                         "https://someone-else.example.org/md": {"attribute_restrictions": None}},
+    # an empty table names no attribute: "release nothing", not "no restriction"
+    "names-none": {"default": {"attribute_restrictions": {}}},
+    "per-sp-names-none": {"default": {"attribute_restrictions": None}, fed.SP_EID: {"attribute_restrictions": {}}},
+    "names-none+no-fail": {"default": {"attribute_restrictions": {}, "fail_on_missing_requested": False}},
     "ec-swamid": {"default": {"entity_categories": ["swamid"]}},
     "ec-edugain": {"default": {"entity_categories": ["edugain"]}},
     "ec-refeds+restr": {"default": {"entity_categories": ["refeds"], "attribute_restrictions": {"mail": [r".*@example\.org$"], "givenName": None, "sn": None}}},
@@ -326,7 +330,7 @@ def restrictions(pol, eid=fed.SP_EID):
         r = p[eid]["attribute_restrictions"]
     else:
         r = p["default"].get("attribute_restrictions")
-    if not r:
+    if r is None:
         return None
     return {k.lower(): ([re.compile(x) for x in v] if v else None) for k, v in r.items()}
 
